@@ -454,6 +454,14 @@ func confirm(b *built, f *explore.Found, trace bool) (*explore.Found, string) {
 		return nil, "worker died: " + headTail(w.stderr, 2500)
 	}
 	if len(r.Found) == 0 {
+		if os.Getenv("VERIF_TRACE") != "" && r.Sample != nil && trace {
+			for k, st := range r.Sample.Steps {
+				fmt.Fprintf(os.Stderr, "  step %3d t=%6dms choice %d/%d %-40s [%s]\n", k, st.T, st.Choice, st.NAlts, st.Sig, st.Alts)
+			}
+			for _, o := range r.Sample.Obs {
+				fmt.Fprintln(os.Stderr, "  obs:", o)
+			}
+		}
 		return nil, ""
 	}
 	return &r.Found[0], ""
